@@ -152,6 +152,14 @@ def run_batches(oc, r, which, exe, scen, B, env, reqs, pend):
                     oc.violations.append(dict(what="%d consumers waited, %d items were pushed in one burst, only %s consumers were released with an item (lost wake-up)"
                                               % (consumers, consumers, fl["got"]), scenario=list(s), build=which))
                 continue
+            if s[0] == "W":
+                _, consumers, seed = s
+                fl = dict(kv.split("=") for kv in line.partition("|")[2].split())
+                oc.case(("W", consumers, seed), nontrivial=consumers >= 2)
+                oc.stat("wake_then_push_consumers_%d" % consumers)
+                if int(fl["released"]) != consumers:
+                    oc.violations.append(dict(what="wake_up() followed at once by push(): %s of %d waiting consumers were released" % (fl["released"], consumers), scenario=list(s), build=which))
+                continue
             if s[0] == "Q":
                 _, consumers, items, seed = s
                 fl = dict(kv.split("=") for kv in line.partition("|")[2].split())
@@ -206,7 +214,7 @@ def run(tier):
     proof = proof_status(PROP, thorough)
     oc = Outcome(PROP)
     oc.rule = ("real headers, ThreadSanitizer build: D scenarios = 1-4 producers x 0-12 items, 1-3 workers, destroy after idle (mode 0) or at a jittered moment (mode 1), seeded jitter in producers and handler; "
-               "Q scenarios = 1-4 consumers blocked in wait_and_pop then wake_up(); oracle per execution: no item twice, per-producer order and no overlap (1 worker), everything handled when alive and idle-waited, "
+               "Q scenarios = 1-4 consumers blocked in wait_and_pop then wake_up(); W scenarios = 2-6 consumers blocked, wake_up() with a push() landing right behind it: all released; oracle per execution: no item twice, per-producer order and no overlap (1 worker), everything handled when alive and idle-waited, "
                "destruction completes before the deadline, no handler activity afterwards, no ThreadSanitizer report; each log replayed as a label sequence on Model/Conc (same hand-off order, all workers exited, nothing lost); "
                "non-trivial = at least 2 items")
     oc.assumptions = TRUSTED
@@ -241,11 +249,14 @@ def run(tier):
             scen.append(("Q", r.choice([1, 2, 3, 4]), r.choice([0, 1, 3, 9]), r.randrange(1 << 30)))
         for k in range(n // 10):
             scen.append(("P", r.choice([2, 3, 4]), r.randrange(1 << 30)))
+        for k in range(n // 8):
+            scen.append(("W", r.choice([2, 3, 4, 6]), r.randrange(1 << 30)))
         # second build: the window between a wait predicate and the actual blocking is widened (no sanitizer)
         scen2 = []
         for k in range(n // 3):
             if r.random() < 0.5:
-                scen2.append(("Q", r.choice([1, 2, 3, 4]), r.choice([0, 1, 3]), r.randrange(1 << 30)) if r.random() < 0.7 else ("P", r.choice([2, 3]), r.randrange(1 << 30)))
+                scen2.append(("Q", r.choice([1, 2, 3, 4]), r.choice([0, 1, 3]), r.randrange(1 << 30)) if r.random() < 0.5 else
+                             (("P", r.choice([2, 3]), r.randrange(1 << 30)) if r.random() < 0.5 else ("W", r.choice([2, 3, 4]), r.randrange(1 << 30))))
             else:
                 scen2.append(("D", r.choice([1, 2]), r.choice([0, 1, 2, 3]), r.choice([1, 1, 2]), r.randrange(1 << 30), r.choice([0, 1])))
         env = {"TSAN_OPTIONS": "halt_on_error=0:exitcode=66:second_deadlock_stack=1"}
